@@ -522,7 +522,8 @@ class Ovld:
     def resolve(self, *args):
         """Find the correct method to call for the given arguments."""
         self.ensure_compiled()
-        return self.map[tuple(map(subtler_type, args))]
+        lookup_for = self.argument_analysis.lookup_for
+        return self.map[tuple(lookup_for(i)(arg) for i, arg in enumerate(args))]
 
     def register_signature(self, sig, orig_fn):
         """Register a function for the given signature."""
@@ -620,7 +621,8 @@ class Ovld:
     def next(self, *args):
         """Call the next matching method after the caller, in terms of priority or specificity."""
         fr = sys._getframe(1)
-        key = (fr.f_code, *map(subtler_type, args))
+        lookup_for = self.argument_analysis.lookup_for
+        key = (fr.f_code, *(lookup_for(i)(arg) for i, arg in enumerate(args)))
         method = self.map[key]
         return method(*args)
 
